@@ -48,9 +48,12 @@ Proof.
 Qed.
 
 (* the index of a flat listing: class k is indexed iff the listing has the file <k><suffix>, and then that file is the entry *)
-Lemma idx_fwd raw k p : In k p_ids -> flatb raw = true -> p_idx raw k = Some p -> p = p_exact_name k /\ In p raw.
+Lemma idx_fwd raw k p : In k p_ids -> g_index_top_level_only = true \/ flatb raw = true -> p_idx raw k = Some p ->
+  p = p_exact_name k /\ In p raw.
 Proof.
   intros Hk Hf H. destruct (p_only_exact_names raw k p H) as [Hin Hb]. split; [|exact Hin].
+  destruct Hf as [Ht|Hf].
+  { unfold p_idx, tmap, p_tset in H. rewrite Ht in H. apply mk_tset_top in H. rewrite <- H. exact Hb. }
   unfold flatb in Hf. rewrite forallb_forall in Hf. specialize (Hf p Hin). fold (p_exact_name k) in Hb.
   destruct (index_ok k Hk) as [_ [S2 _]]. rewrite Hb, S2, str_eqb_refl in Hf. cbn [negb orb] in Hf.
   destruct (str_eqb_spec (p_exact_name k) p) as [E|]; [symmetry; exact E | discriminate Hf].
@@ -61,7 +64,7 @@ Proof.
   intros Hk Hin. destruct (index_ok k Hk) as [S1 [S2 S3]]. unfold p_idx, tmap, p_tset, mk_tset.
   apply (aget_some_of_In _ (p_name k) (p_exact_name k)). apply in_map_iff. exists (p_exact_name k). split.
   - rewrite S3, S1. reflexivity.
-  - apply filter_In. split; [apply list_templates_In; exact Hin|]. rewrite S3, S2. apply str_eqb_refl.
+  - apply filter_In. split; [apply list_templates_In; exact Hin|]. rewrite S3, S2, !str_eqb_refl, orb_true_r. reflexivity.
 Qed.
 
 Lemma in_root_concat (rs : list (list path)) p : (exists r, In r rs /\ has_file r p = true) <-> In p (concat rs).
@@ -81,8 +84,11 @@ Qed.
 
 Section Compose.
   Variables (rs : list (list path)) (pl : list path).
-  Hypothesis Hfr : forallb flatb rs = true.
-  Hypothesis Hfp : flatb pl = true.
+  Hypothesis Hflat : g_index_top_level_only = true \/ (forallb flatb rs = true /\ flatb pl = true).
+  Let Hfr : g_index_top_level_only = true \/ flatb (concat rs) = true.
+  Proof. destruct Hflat as [H|[H _]]; [left; exact H | right; apply flatb_concat; exact H]. Qed.
+  Let Hfp : g_index_top_level_only = true \/ flatb pl = true.
+  Proof. destruct Hflat as [H|[_ H]]; [left; exact H | right; exact H]. Qed.
   Let TF := p_idx (concat rs).
   Let TP := p_idx pl.
 
@@ -106,7 +112,7 @@ Section Compose.
     assert (Hk : In k p_ids) by (apply Hids; left; reflexivity).
     destruct (index_ok k Hk) as [_ [_ S3]].
     destruct (TF k) as [p|] eqn:Tf.
-    - destruct (idx_fwd _ k p Hk (flatb_concat rs Hfr) Tf) as [-> Hin]. cbn [out_of]. rewrite S3.
+    - destruct (idx_fwd _ k p Hk Hfr Tf) as [-> Hin]. cbn [out_of]. rewrite S3.
       unfold get_source. destruct (first_root rs (p_exact_name k) 0) as [i|] eqn:E; [reflexivity|].
       exfalso. apply (proj2 (first_root_some_iff rs (p_exact_name k)) Hin). exact E.
     - assert (NoU : first_root rs (p_exact_name k) 0 = None).
@@ -163,15 +169,16 @@ Proof.
   { intros n. unfold p_get_source. destruct (mk_loaders pol dirs pkg); reflexivity. }
   unfold p_spec_seq, p_spec_rendered, p_flatb, p_shadow_freeb, p_outcome in *.
   destruct (mk_loaders pol dirs pkg) as [fs pk]. cbn [fst snd] in PGS. cbn [map]. f_equal.
-  apply andb_prop in Hflat. destruct Hflat as [Hf1 Hf2].
-  assert (Hfr : forallb flatb (roots_of fs) = true) by (destruct fs; [exact Hf1 | reflexivity]).
-  assert (Hfp : flatb (plist_of pk) = true) by (destruct pk; [exact Hf2 | reflexivity]).
+  assert (HF : g_index_top_level_only = true \/ (forallb flatb (roots_of fs) = true /\ flatb (plist_of pk) = true)).
+  { apply orb_prop in Hflat. destruct Hflat as [Ht|Hflat]; [left; exact Ht | right].
+    apply andb_prop in Hflat. destruct Hflat as [Hf1 Hf2].
+    split; [destruct fs; [exact Hf1 | reflexivity] | destruct pk; [exact Hf2 | reflexivity]]. }
   rewrite spec_lookup_Tof.
   change (match p_index_fs fs with Some T => T | None => fun _ => None end) with (Tof (p_index_fs fs)) in Hsh.
   change (match p_index_pkg pk with Some T => T | None => fun _ => None end) with (Tof (p_index_pkg pk)) in Hsh.
   rewrite <- (shadow_free_nearest _ _ _ Hsh).
   rewrite (nearest_any_ext _ _ _ _ (Tof_fs fs) (Tof_pk pk)).
-  pose proof (compose_chain (roots_of fs) (plist_of pk) Hfr Hfp (chain_n p_bases p_fuel c) (chain_ids p_fuel c Hc)) as H.
+  pose proof (compose_chain (roots_of fs) (plist_of pk) HF (chain_n p_bases p_fuel c) (chain_ids p_fuel c Hc)) as H.
   unfold out_of in H.
   transitivity (spec_chain (roots_of fs) (plist_of pk) (chain_n p_bases p_fuel c)).
   - rewrite <- H. destruct (nearest_any _ _ _) as [p|]; [|reflexivity]. rewrite PGS, get_source_norm. reflexivity.
@@ -187,13 +194,20 @@ Definition f_sub_struct : path := [115; 117; 98; 47] ++ f_struct.               
 (* (a) a user file sub/StructureType.j2 is CHOSEN by type_to_template (its stem matches) but .name drops the directory: under
    FIND_ALL the package's StructureType.j2 is rendered, under FIND_FIRST nothing is found -- although the user's CompositeType.j2,
    which the property designates, is right there *)
-Lemma subdir_name_refuted :
+Lemma subdir_name_refuted : g_index_top_level_only = false ->
   p_lookup_seq false FIND_ALL (Some [[f_sub_struct; f_comp]]) (Some [f_struct]) [g_cls_StructureType] = [Some f_sub_struct] /\
   p_rendered_seq false FIND_ALL (Some [[f_sub_struct; f_comp]]) (Some [f_struct]) [g_cls_StructureType] = [Rendered OPkg f_struct] /\
   p_rendered_seq false FIND_FIRST (Some [[f_sub_struct; f_comp]]) (Some [f_struct]) [g_cls_StructureType] = [NotFound f_struct] /\
   p_spec_rendered FIND_FIRST (Some [[f_sub_struct; f_comp]]) (Some [f_struct]) g_cls_StructureType = Rendered (OUserDir 0) f_comp /\
   p_flatb FIND_FIRST (Some [[f_sub_struct; f_comp]]) (Some [f_struct]) = false.
-Proof. vm_compute. repeat split; reflexivity. Qed.
+Proof. intros H. vm_compute in H. first [discriminate H | (vm_compute; repeat split; reflexivity)]. Qed.
+
+(* with the top-level-only index (the fix) the same inputs render what the property designates, under both policies *)
+Lemma subdir_name_fixed : g_index_top_level_only = true ->
+  p_lookup_seq false FIND_FIRST (Some [[f_sub_struct; f_comp]]) (Some [f_struct]) [g_cls_StructureType] = [Some f_comp] /\
+  p_rendered_seq false FIND_FIRST (Some [[f_sub_struct; f_comp]]) (Some [f_struct]) [g_cls_StructureType] = [Rendered (OUserDir 0) f_comp] /\
+  p_spec_rendered FIND_FIRST (Some [[f_sub_struct; f_comp]]) (Some [f_struct]) g_cls_StructureType = Rendered (OUserDir 0) f_comp.
+Proof. intros H. vm_compute in H. first [discriminate H | (vm_compute; repeat split; reflexivity)]. Qed.
 
 (* (b) a user CompositeType.j2 is rendered for a structure although the package has StructureType.j2 (FIND_ALL searches the user
    chain to its end before the package is consulted) *)
